@@ -1020,3 +1020,10 @@ def _convert_data_chunk(chunk, raw_timestamps):
 def _convert_channel_data_chunk(channel_chunk, raw_timestamps):
     if not raw_timestamps and isinstance(channel_chunk.data, TimestampArray):
         channel_chunk.data = channel_chunk.data.as_datetime64()
+    elif isinstance(channel_chunk.data, np.ndarray) and channel_chunk.data.dtype.byteorder == '>':
+        # Data read from big endian segments should have the same (native) dtype as all other reads
+        channel_chunk.data = channel_chunk.data.astype(channel_chunk.data.dtype.newbyteorder('='))
+    if channel_chunk.scaler_data is not None:
+        for scale_id, scaler_data in channel_chunk.scaler_data.items():
+            if scaler_data.dtype.byteorder == '>':
+                channel_chunk.scaler_data[scale_id] = scaler_data.astype(scaler_data.dtype.newbyteorder('='))
